@@ -384,8 +384,8 @@ Section Readers.
         | Err e => Err e
         | Ok tr s2 =>
             let s3 := notify tr s2 in
-            match fields_parse true tr (r_fields r) with           (* response.fields.parse(trailer_data) *)
-            | None => Err ValueErr                                 (* 'Field missing colon.' escapes *)
+            match fields_parse false tr (r_fields r) with          (* response.fields.parse(trailer_data, strict=False) *)
+            | None => Err ValueErr                                 (* cannot happen: not strict *)
             | Some fs => Ok (mkResp (r_version r) (r_status r) (r_reason r) fs, body) s3
             end
         end
@@ -424,4 +424,20 @@ Section Readers.
   Definition start (bs : list N) : st := mkSt (mkConn bs false) [] false.
 
   Definition run (P : params) (bs : list N) : res (response * list N) := exchange P (start bs).
+
+  (* a persistent connection used in lockstep (client.py Session on a pooled
+     connection): the bytes of response k+1 reach the connection only after
+     exchange k has completed, because the client sends request k+1 only then.
+     [recd] is restarted for every exchange (one recorder session, one record
+     block, per exchange).  The sequence stops at the first error and when wpull
+     has closed the connection (the next request would use a new one). *)
+  Fixpoint lockstep (xs : list (params * list N)) (s : st) : list (res (response * list N)) :=
+    match xs with
+    | [] => []
+    | (P, bs) :: r =>
+        match exchange P (mkSt (mkConn (pending (cn s) ++ bs) (eof_hit (cn s))) [] (closed s)) with
+        | Err e => [Err e]
+        | Ok a s1 => Ok a s1 :: (if closed s1 then [] else lockstep r s1)
+        end
+    end.
 End Readers.
